@@ -11,7 +11,8 @@
     theorems `…_is_reference`: for all field values the regenerated steps mean exactly the reference encoder;
   * the hash: the loop body of `Hash64` transcribed as an expression, proved to be the reference step, and the
     whole function (init, loop over all bytes, final xor, return conversion) proved to be `hash64`;
-  * one golden skeleton is left (LogSinkPack.ResetTagHash writes only to a side buffer).
+  * side buffers: what the tag-hash packs write to their side buffer, hash and copy into the stream
+    (`tagcount_side_buffer`, `resetTagHash_is_reference`) — no golden skeleton is left.
 -/
 import Golib.Wire.Counter
 import Golib.Wire.Steps
@@ -51,13 +52,6 @@ theorem event_keys :
     Gen.C05.eventKeys.map (fun kv => (kv.1, ascii kv.2)) =
       [("ESCALATION_KEY", keyEsca), ("UUID_KEY", keyUuid), ("STATUS_KEY", keyStatus), ("OTYPE_KEY", keyOtype)] := by
   decide
-
-/-! ### the one remaining golden skeleton (a function that writes only to a side buffer) -/
-
-def exp_LogSinkPack_ResetTagHash : List (String × String) := [
-  ("WriteMapValue", "_L0, this.Tags")]
-
-theorem skeleton_LogSinkPack_ResetTagHash : Gen.C05.skel_LogSinkPack_ResetTagHash = exp_LogSinkPack_ResetTagHash := by decide
 
 /-! ### the regenerated write steps mean the reference encoder, for all field values
 
@@ -280,6 +274,33 @@ theorem logsink_writer_is_reference (p : LogSink) :
     simp [Gen.C05.steps_LogSinkPack, run, interp, wr, wrLit, semLogSink, S0, encLogSink, encLogSinkRaw,
       LogSink.norm, h, h2, encOptMap, optOfMap, encOption] <;>
     (cases hfs : p.fields <;> simp_all [encOptMap, optOfMap, encOption])
+
+/-- tag-count pack, `then` branch: what goes to the side buffer is the encoded tag map — this is what the main
+    stream then receives as `$side.ToByteArray()` — and `tagHash` is assigned `Hash64` of exactly those bytes
+    (`hash64_is_reference`: that function is `hash64`).  With this, the two facts `semTagCount` takes about the
+    branch are consequences of the regenerated steps, not assumptions. -/
+theorem tagcount_side_buffer (p : TagCount) (h : p.tagHash = 0 ∧ p.tags ≠ []) :
+    sideOf (semTagCount p) Gen.C05.steps_TagCountPack = encMap p.tags ∧
+    (semTagCount p).env "$side.ToByteArray()" = .raw (sideOf (semTagCount p) Gen.C05.steps_TagCountPack) ∧
+    Gen.C05.tagCountStores = "hash.Hash64(($side.ToByteArray()))" ∧
+    (semTagCount p).env "tagHash" = .i (hash64 (sideOf (semTagCount p) Gen.C05.steps_TagCountPack)) := by
+  have e : sideOf (semTagCount p) Gen.C05.steps_TagCountPack = encMap p.tags := by
+    simp [Gen.C05.steps_TagCountPack, sideOf, sideI, wr, semTagCount, S0, h]
+  refine ⟨e, ?_, by decide, ?_⟩
+  · rw [e]; rfl
+  · rw [e]; simp [semTagCount, S0, effTagHash, h]
+
+/-- `LogSinkPack.ResetTagHash`: its stream receives the encoded tag map, it stores `Hash64` of that stream in
+    `TagHash` and returns the stream — what `LogSinkPack.Write` copies after the hash -/
+theorem resetTagHash_is_reference (p : LogSink) :
+    run (semLogSink p) Gen.C05.steps_LogSinkPack_ResetTagHash = encMap p.tags ∧
+    Gen.C05.resetTagHashReturns = "$.ToByteArray()" ∧
+    Gen.C05.resetTagHashStores = "hash.Hash64(($.ToByteArray()))" ∧
+    (semLogSink p).env "ResetTagHash()" = .raw (run (semLogSink p) Gen.C05.steps_LogSinkPack_ResetTagHash) := by
+  have e : run (semLogSink p) Gen.C05.steps_LogSinkPack_ResetTagHash = encMap p.tags := by
+    simp [Gen.C05.steps_LogSinkPack_ResetTagHash, run, interp, wr, semLogSink, S0]
+  refine ⟨e, by decide, by decide, ?_⟩
+  rw [e]; rfl
 
 def semText (p : TextP) : Sem :=
   { S0 with
